@@ -4,6 +4,9 @@ import (
 	"bufio"
 	"encoding/json"
 	"fmt"
+	"hash/adler32"
+	"hash/crc32"
+	"hash/fnv"
 	"math/rand"
 	"os"
 	"strconv"
@@ -113,4 +116,54 @@ func need(args []string, n int, usage string) error {
 		return fmt.Errorf("usage: vh %s", usage)
 	}
 	return nil
+}
+
+// collidingNames: pairs of different names of one length that collide under common 32-bit string hashes (FNV-1a, FNV-1, CRC-32, Adler-32,
+// the 31-multiplier hash, and the same hashes reduced to 16 bits): whatever is keyed by a hash of a name - an interning table, a cache, a
+// Bloom filter - must still tell them apart. Found by birthday search over seeded pseudo-random names, once per process.
+var collidingOnce [][2]string
+
+func collidingNames() [][2]string {
+	if collidingOnce != nil {
+		return collidingOnce
+	}
+	hashes := []func(string) uint32{
+		func(s string) uint32 { h := fnv.New32a(); h.Write([]byte(s)); return h.Sum32() },
+		func(s string) uint32 { h := fnv.New32(); h.Write([]byte(s)); return h.Sum32() },
+		func(s string) uint32 { return crc32.ChecksumIEEE([]byte(s)) },
+		func(s string) uint32 { return adler32.Checksum([]byte(s)) },
+		func(s string) uint32 {
+			var h uint32
+			for i := 0; i < len(s); i++ {
+				h = 31*h + uint32(s[i])
+			}
+			return h
+		},
+	}
+	r := rand.New(rand.NewSource(424242))
+	const letters = "ABCDEFGHIJKLMNOPQRSTUVWXYZabcdefghijklmnopqrstuvwxyz0123456789_."
+	names := make([]string, 600000)
+	for i := range names {
+		b := []byte("chrUn_")
+		for j := 0; j < 8; j++ {
+			b = append(b, letters[r.Intn(len(letters))])
+		}
+		names[i] = string(b)
+	}
+	for _, h := range hashes {
+		seen := make(map[uint32]string, len(names))
+		found := 0
+		for _, n := range names {
+			k := h(n)
+			if o, ok := seen[k]; ok && o != n {
+				collidingOnce = append(collidingOnce, [2]string{o, n})
+				if found++; found >= 6 {
+					break
+				}
+				continue
+			}
+			seen[k] = n
+		}
+	}
+	return collidingOnce
 }
